@@ -35,6 +35,10 @@ Proof. split; [exact mapping_table_wf_holds|exact inventory_ok_holds]. Qed.
 Theorem C13_callees : all_calls_ok = true.
 Proof. exact all_calls_ok_holds. Qed.
 
+(* the exported functions and methods of the package are exactly the six modelled entry points; Language is int *)
+Theorem C13_public_surface : exported_api_ok = true.
+Proof. exact exported_api_ok_holds. Qed.
+
 Print Assumptions C13_history_free.
 Print Assumptions C13_any_reachable_state.
 Print Assumptions C13_source_facts.
